@@ -14,7 +14,7 @@ def run(ctx):
                 "interpreter and final state or error name compared. distinct = distinct program texts.")
     ctx.assumptions = ["PSMachine.tla transcribes PLRM 3.5/3.6/8.2 for the supported subset",
                        "state after an error is not compared; dictionary forall only over one-entry dictionaries"]
-    consts = {"Tier": '"%s"' % ctx.tier, "StepBound": "150", "MaxBudget": "1"}
+    consts = {"Tier": '"%s"' % ctx.tier, "StepBound": "150", "MaxBudget": "1", "FeedLen": "1"}
     c1 = dict(consts, Family='"ctl"')
     summ, vec, base = pscommon.run_mbt(ctx, "MC_PSProg", c1, "psprog-ctl", base_heap="FreshHeap",
                                        properties=PROPS)
